@@ -3,15 +3,19 @@ import math, os, re, subprocess
 from vcheck import Case, hx, flist, parse_vals, compare_lines, tokf
 
 PID = "C18"
-RULE = ("a case is one generator state (std::mt19937 seed, optionally with prescribed leading state words) and a sequence of sampler calls on it; "
+RULE = ("a case is one generator state (std::mt19937 seed, optionally with prescribed leading state words) -- or two generator states (seqn) -- and a sequence of "
+        "sampler calls on it, whose user functions may be re-entrant (a density / CDF that makes a sampler call itself at every evaluation, on the same or on the other generator); "
         "non-trivial = a Metropolis call whose burn-in is not a multiple of its thinning (thinning >= 2), or a sequence in which at least two different "
-        "samplers are interleaved on one generator, or a rejection call that needed more than one trial, or a Poisson draw with mean > 500; distinct by case text")
+        "samplers are interleaved on one generator (between calls or inside a user function), or a rejection call that needed more than one trial, or a Poisson draw with mean > 500; "
+        "distinct by case text")
 LEVEL_TEXT = ("Theorems (Coq): number of uniforms consumed by every sampler as a function of its control flow (equal streams give equal outputs and equal residual "
               "streams by the type of the model); Sample_Metropolis(_2D) returns exactly `sample` elements for every thinning >= 1, every burn-in and no 32-bit overflow, "
               "every returned point lies in a bounded domain (the step: a candidate outside of the domain has acceptance probability exactly 0 for every density, also at a current point of "
               "density 0, and is not taken for any accept deviate u >= 0, the deviate 0 included), the acceptance rule satisfies detailed balance; rejection sampling returns a point of the box that "
               "satisfies the acceptance rule y <= pdf(x); the Poisson sampler is Knuth's product rule for every lambda >= 0 (the exp(STEP) rescaling is transparent, with the "
-              "p == 1 boundary stated); Sample_Uniform stays in [a,b]. NOT theorems: the distributional clauses (Kolmogorov-Smirnov, chi-square, moments) — they are "
+              "p == 1 boundary stated); Sample_Uniform stays in [a,b]; for a target density that draws random numbers itself (re-entrant use: the samplers with the state "
+              "threaded through every evaluation of the user function, section ModelSt) Sample_Metropolis(_2D) still returns exactly `sample` elements and stays in a bounded domain, and with a pure "
+              "function the re-entrant samplers are the plain ones. NOT theorems: the distributional clauses (Kolmogorov-Smirnov, chi-square, moments) — they are "
               "tested on the implementation with fixed seeds at significance 1e-9 (S4); that std::mt19937/generate_canonical produce the stream handed to the model is "
               "checked by the correspondence (a pure-Python MT19937 computes the uniforms of every case) and by the consumption count/next raw output comparison.")
 LEVEL_NOTE = ("Coq 8.16.1; theorems over R use the standard library's real-number axioms, counting theorems are axiom-free; std::mt19937 + std::uniform_real_distribution are "
@@ -26,6 +30,8 @@ ASSUMPTIONS = ["distributional clauses are statistical tests on the implementati
                "the acceptance rule at a current point of density exactly 0.0 (ratio NaN or inf, std::min(1.0, .) = 1.0: free walk to the support) is IEEE behaviour outside the real-number theorems: "
                "it is covered by the correspondence and by S4 on prescribed generator streams (accept deviates 0.0, 2^-64, 1-2^-53; start points at the domain corners; densities that vanish on a "
                "part of the domain) and by distributional tests whose chains start in the zero-density region; a density that evaluates to -0.0 there traps the chain (K-C18-1)",
+               "re-entrant user functions: the two evaluations in PDF(candidate) / PDF(x) are modelled in the order g++ and clang emit them (candidate first); the C++ standard leaves the order "
+               "unspecified, a compiler that evaluates the other way round shows up as a model/implementation disagreement on the values (not on counts, consumption or states)",
                "thinning = 0 does not divide by zero in the current code (i_max = burn_in, so `i >= burn_in` is never true): it returns no samples; outside the quantifier"]
 ALPHA = 1e-9
 ZCRIT = 6.5     # two-sided normal tail 8e-11 <= 1e-9
@@ -534,7 +540,7 @@ def generate(rng, tier):
     def nested_op(depth=0, small=False):
         while True:
             o, (p, q) = nested_op1(depth, small)
-            if p + q <= (12000 if depth == 0 else 400): return o, (p, q)
+            if p + q <= (5000 if depth == 0 else 400): return o, (p, q)
     def nested_op1(depth=0, small=False):
         """nest <same|other> <red> <inner> <outer>: (text, bound (current, other))"""
         same = rng.random() < 0.6; red = rng.choice(["last", "last", "mean", "mean", "count", "none"])
@@ -544,7 +550,7 @@ def generate(rng, tier):
             while True:
                 s, th, b = rng.choice([(rng.randint(0, 12), rng.randint(1, 4), rng.randint(0, 9)), (50, 3, 7), (0, 4, 9), (1, 1, 0), (17, 2, 5), (6, 1, 0)])
                 if small: s, th, b = rng.choice([(2, 1, 1), (1, 2, 0), (3, 1, 0)])
-                if (b + th * s) * (ip + iq + 1) <= 4000: break
+                if (b + th * s) * (ip + iq + 1) <= 2000: break
             im = imax32(s, th, b)
             if kind == "metro":
                 fx, dom = rng.choice([(GAUSS1, []), (GAUSS1, [-2.0, 2.5]), (T1["bimodal"][0], []), (T1["tri"][0], [0.0, 1.0]), (T1["expo8"][0], [0.0, 8.0])])
@@ -564,7 +570,7 @@ def generate(rng, tier):
             o = f"invt {hx(a)} {hx(b)} + {fx} * {C(1e-9)} tanh z"; nev = 200; own = 1
         txt = f"nest {'same' if same else 'other'} {red} {io} {o}"
         return txt, ((own + nev * ip, nev * iq) if same else (own + nev * iq, nev * ip))
-    for _ in range(R(260, 4000)):
+    for _ in range(R(260, 2500)):
         K = rng.choice([1, 1, 2, 2, 3]); ops = []; nm = na = 0
         for j in range(K):
             r = rng.random()
@@ -623,13 +629,43 @@ def generate(rng, tier):
         L.append(f"law metro2 farpeak2 {sd} {n2} {hx(0.5)} {hx(0.4)} 20 20000 {flist(list(T2['farpeak2'][3]))} {T2['farpeak2'][0]}")
         L.append(f"law metro2 box2in {sd} {n2} {hx(0.2)} {hx(0.2)} 20 2000 {flist(list(T2['box2in'][3]))} {T2['box2in'][0]}")
         for l in L: cs.append(Case(l, ("law", l.split()[1], "zero-density-start")))
+    # the law of a series drawn AFTER a history of other calls in the same process: the same limits / domain / envelope with other user functions
+    # (inverse transform: CDFs restricted to the window, valid on the prescribed generator state), other (sample, thinning, burn_in)
+    hrng = __import__("random").Random(987654321)          # fixed, like the seeds of the distributional tests
+    def hist_invt(a, b):
+        ops = []; raws = []
+        fam = [f for f in cdf_family(a, b)]
+        for _k in range(hrng.choice([1, 2])):
+            for _try in range(20):
+                fx, _F = hrng.choice(fam[2:]); e = fparse(fx.split(), 0)[0]; Fa, Fb = feval(e, a), feval(e, b)
+                if Fb - Fa > 0.05 and (Fa > 0.05 or Fb < 0.95): break
+            else: continue
+            ops.append(f"invt {hx(a)} {hx(b)} {fx}"); raws += list(raws_for(Fa + (Fb - Fa) * hrng.uniform(0.2, 0.8)))
+        return ops, raws
+    n3 = 10000 if not big else 20000
+    for sd in seeds[:1] if not big else seeds:
+        L = []
+        for nm in sorted(TC):
+            fx, _, a, b = TC[nm]; ops, raws = hist_invt(a, b)
+            if ops: L.append((ops, raws, f"law invt {nm} {sd} {n3} {hx(a)} {hx(b)} {fx}"))
+        fam = dens_family(0.0, 1.0)
+        L.append(([f"rej {hx(0.0)} {hx(1.0)} {hx(2.0)} {hrng.choice(fam[1:])}" for _k in range(2)], [], f"law rej tri {sd} {n3} {hx(0.0)} {hx(1.0)} {hx(2.0)} {T1['tri'][0]}"))
+        L.append(([f"rej2 {hx(0.0)} {hx(1.0)} {hx(0.0)} {hx(1.0)} {hx(2.0)} {hrng.choice(dens2_family(0.0, 1.0, 0.0, 1.0)[1:])}"], [], f"law rej2 xpy {sd} {n3} {' '.join(hx(v) for v in T2['xpy'][3])} {hx(2.0)} {T2['xpy'][0]}"))
+        L.append(([f"metro {hx(1.5)} 50 3 7 {flist([-1.0, 2.0])} {hrng.choice(dens_family(-1.0, 2.0))}", f"metro {hx(1.5)} 5 2 3 {flist([-1.0, 2.0])} {C(1.0)}"], [],
+                  f"law metro tgauss {sd} {n3} {hx(1.5)} 8 500 {flist([-1.0, 2.0])} {T1['tgauss'][0]}"))
+        bx = list(T2["g2box"][3])
+        L.append(([f"metro2 {hx(1.5)} {hx(1.0)} 40 3 7 {flist(bx)} {hrng.choice(dens2_family(*bx))}", f"metro2 {hx(1.5)} {hx(1.0)} 3 1 0 {flist(bx)} {C(1.0)}"], [],
+                  f"law metro2 g2box {sd} {n3} {hx(1.5)} {hx(1.0)} 8 500 {flist(bx)} {T2['g2box'][0]}"))
+        for ops, raws, l in L:
+            st = [untemper(w) for w in raws]
+            cs.append(Case(f"lawh {hrng.randrange(2 ** 32)} {len(st)} {' '.join(str(w) for w in st)} {len(ops)} {' '.join(ops)} {l}".replace("  ", " "), ("law", l.split()[1], "after-history")))
     return cs
 
 
 # ------------------------------------------------------------------ comparison with the model
 def compare(c, io, mo, tol):
     op = c.line.split(None, 1)[0]
-    if op == "law": return (mo == "NOMODEL"), False, ("" if mo == "NOMODEL" else "model driver: " + mo[:60])
+    if op in ("law", "lawh"): return (mo == "NOMODEL"), False, ("" if mo == "NOMODEL" else "model driver: " + mo[:60])
     if op in ("seq", "seqn") and io and not io.startswith(("EXIT", "CRASH", "SANITIZER", "TIMEOUT", "HARNESSERR")):
         io = io.rsplit(None, 1 if op == "seq" else 2)[0]          # the next raw output(s) are checked against the Python MT19937 in predicates()
     return compare_lines(io, mo, tol)
@@ -730,7 +766,9 @@ def poisson_law(ks, lam, tag):
 
 
 def law_predicates(c, io):
-    t = c.line.split(); kind, target, n = t[1], t[2], int(t[4])
+    t = c.line.split()
+    if t[0] == "lawh": t = t[t.index("law"):]           # the history before the series: other calls in the same process
+    kind, target, n = t[1], t[2], int(t[4])
     tag = "law-" + kind
     if io.startswith("EXIT"): return [(tag + ":exit", "the sampler terminated the process inside its stated domain of use")]
     v = parse_vals(io); out = []
@@ -1127,7 +1165,7 @@ def predicates(c, io):
     out = []
     if io.startswith(("CRASH", "SANITIZER", "TIMEOUT", "HARNESSERR")): return out        # reported generically
     kind = c.line.split(None, 1)[0]
-    if kind == "law": return law_predicates(c, io)
+    if kind in ("law", "lawh"): return law_predicates(c, io)
     if kind == "seqn": return seqn_predicates(c, io)
     if kind == "mgrid":
         t = c.line.split(); sample, thin, burn, dim, bounded = (int(x) for x in t[2:7])
